@@ -1,4 +1,5 @@
 #!/bin/bash
+# prerequisite: git clone /repo /tmp/sim-repo   (remove it afterwards; harness/Cargo.toml is restored to /repo at the end)
 # throw-away mutations on the private clone /tmp/sim-repo (branch main = unchanged tree)
 set -u
 cd /tmp/sim-repo
